@@ -25,15 +25,29 @@ static ZERO_PAYLOAD: Payload = Payload {
 /// Projections on the stored pointer types.
 pub trait Proj: PtrT {
     fn payload_ref(&self) -> &Payload;
+    /// A plain cache that is used through the `cache::Access` trait, where the pointer kind
+    /// supports it (it must deref to the crate's `Base`).
+    fn trait_cache<S: Strategy<Self> + 'static>(c: Cache<ContRef<Self, S>, Self>) -> Result<Box<dyn CacheLike>, Cache<ContRef<Self, S>, Self>>
+    where
+        Self: Sized,
+    {
+        Err(c)
+    }
 }
 impl Proj for SA {
     fn payload_ref(&self) -> &Payload {
         self.payload()
     }
+    fn trait_cache<S: Strategy<Self> + 'static>(c: Cache<ContRef<Self, S>, Self>) -> Result<Box<dyn CacheLike>, Cache<ContRef<Self, S>, Self>> {
+        Ok(Box::new(TraitCache::<arena::KA, S>(c)))
+    }
 }
 impl Proj for SB {
     fn payload_ref(&self) -> &Payload {
         self.payload()
+    }
+    fn trait_cache<S: Strategy<Self> + 'static>(c: Cache<ContRef<Self, S>, Self>) -> Result<Box<dyn CacheLike>, Cache<ContRef<Self, S>, Self>> {
+        Ok(Box::new(TraitCache::<arena::KB, S>(c)))
     }
 }
 impl Proj for WA {
@@ -51,23 +65,57 @@ impl Proj for Option<SA> {
     }
 }
 
+/// User code inside the library: every projection may be made to panic (fault kind user-panic).
+fn proj_tick() {
+    let me = rt::current();
+    let fire = w(|w| {
+        if let Some(k) = w.proj_panic.get_mut(me) {
+            if *k > 0 {
+                *k -= 1;
+                return *k == 0;
+            }
+        }
+        false
+    });
+    if fire {
+        std::panic::resume_unwind(Box::new(arena::UserPanic("projection")));
+    }
+}
+
+pub fn op_arm_proj_panic(k: u8) {
+    let me = rt::current();
+    w(|w| {
+        if w.proj_panic.len() <= me {
+            w.proj_panic.resize(me + 1, 0);
+        }
+        w.proj_panic[me] = k.max(1) as u32;
+        w.armed += 1;
+    });
+}
+
 fn p_val<T: Proj>(t: &T) -> &u64 {
+    proj_tick();
     &t.payload_ref().val
 }
 fn p_payload<T: Proj>(t: &T) -> &Payload {
+    proj_tick();
     t.payload_ref()
 }
 fn p_inner(p: &Payload) -> &Inner {
+    proj_tick();
     &p.inner
 }
 fn p_inner_val(i: &Inner) -> &u64 {
+    proj_tick();
     &i.val
 }
 fn p_payload_val(p: &Payload) -> &u64 {
+    proj_tick();
     &p.val
 }
 /// Identity projection: the result points at the pointer held *inside* the guard object.
 fn p_self<T: Proj>(t: &T) -> &T {
+    proj_tick();
     t
 }
 fn p_ident(x: &u64) -> &u64 {
@@ -124,6 +172,23 @@ impl<T: Proj, S: Strategy<T> + 'static> CacheLike for PlainCache<T, S> {
     }
 }
 
+/// A plain cache used through the `cache::Access` trait (what generic code does).
+struct TraitCache<K: arena::Kind, S: Strategy<arena::SimArc<K>> + 'static>(Cache<ContRef<arena::SimArc<K>, S>, arena::SimArc<K>>)
+where
+    arena::SimArc<K>: Proj;
+impl<K: arena::Kind, S: Strategy<arena::SimArc<K>> + 'static> CacheLike for TraitCache<K, S>
+where
+    arena::SimArc<K>: Proj,
+{
+    fn load_id(&mut self) -> (u32, usize) {
+        let s: &arena::Slot = CacheAccess::load(&mut self.0);
+        (s.uid.get(), s as *const arena::Slot as usize)
+    }
+    fn clone_box(&self) -> Box<dyn CacheLike> {
+        Box::new(TraitCache(self.0.clone()))
+    }
+}
+
 struct MappedCache<T: Proj, S: Strategy<T> + 'static>(MapCache<ContRef<T, S>, T, fn(&T) -> &u64>);
 impl<T: Proj, S: Strategy<T> + 'static> CacheLike for MappedCache<T, S> {
     fn load_id(&mut self) -> (u32, usize) {
@@ -159,18 +224,24 @@ pub fn op_cache_new(ctx: Ctx, c: u8, k: u8) {
     let Some(cont) = interp::get_cont(c) else { return };
     op_cache_drop(ctx, k);
     let mapped = k % 2 == 1;
+    let via_trait = k % 4 == 2;
     rt::op_begin(OP_CACHE_LOAD);
     let r = rec_begin();
-    fn mk<T: Proj, S: Strategy<T> + 'static>(rc: &Rc<Cont>, cv: &ArcSwapAny<T, S>, mapped: bool) -> Box<dyn CacheLike> {
+    fn mk<T: Proj, S: Strategy<T> + 'static>(rc: &Rc<Cont>, cv: &ArcSwapAny<T, S>, mapped: bool, via_trait: bool) -> Box<dyn CacheLike> {
         let cache = Cache::new(cont_ref(rc, cv));
         if mapped {
             Box::new(MappedCache(cache.map(p_val::<T> as fn(&T) -> &u64)))
+        } else if via_trait {
+            match T::trait_cache(cache) {
+                Ok(b) => b,
+                Err(cache) => Box::new(PlainCache(cache)),
+            }
         } else {
             Box::new(PlainCache(cache))
         }
     }
     // Cache::new performs a load_full; what it cached becomes visible with the first load.
-    let made = guarded("Cache::new", || crate::with_cont!(&*cont, cv, _wr => mk(&cont, cv, mapped)));
+    let made = guarded("Cache::new", || crate::with_cont!(&*cont, cv, _wr => mk(&cont, cv, mapped, via_trait)));
     if let Some(mut cb) = made {
         let got = guarded("Cache::load", || cb.load_id());
         if let Some((uid, addr)) = got {
@@ -184,6 +255,9 @@ pub fn op_cache_new(ctx: Ctx, c: u8, k: u8) {
                 });
                 bump(w, "cache_new");
             });
+        } else {
+            // its first load panicked (armed projection): the cache is given up
+            let _ = guarded("drop(Cache)", move || drop(cb));
         }
     }
     rt::op_end();
@@ -196,7 +270,12 @@ pub fn op_cache_load(ctx: Ctx, k: u8) {
     w(|w| w.inflight_cache_uids.push(e.last_uid));
     rt::op_begin(OP_CACHE_LOAD);
     let r = rec_begin();
-    let got = guarded("Cache::load", || e.c.load_id());
+    let mut got = guarded("Cache::load", || e.c.load_id());
+    if got.is_none() && !rt::is_aborting() {
+        // the projection of a mapped cache panicked, possibly after the cache had already
+        // revalidated: ask again (nothing is armed any more) to learn what it holds now
+        got = guarded("Cache::load (after a panicking projection)", || e.c.load_id());
+    }
     w(|w| {
         let u = e.last_uid;
         if let Some(p) = w.inflight_cache_uids.iter().position(|x| *x == u) {
@@ -338,7 +417,12 @@ pub fn op_acc_load(ctx: Ctx, c: u8, depth: u8, dynamic: bool, a: u8) {
         })
     });
     if let Some(g) = res {
-        let val = **g;
+        // dereferencing runs the projections: user code that may panic
+        let Some(val) = guarded("deref(projection guard)", || **g) else {
+            let _ = guarded("drop(projection guard)", move || drop(g));
+            rt::op_end();
+            return;
+        };
         let uid = if val == 0 { 0 } else { arena::uid_by_val(val) };
         let addr = arena::obj_info(uid).map(|o| o.addr).unwrap_or(0);
         rec_end(ctx, r, c, CallKind::AccessLoad, (0, 0), 0, (uid, addr), true);
@@ -365,9 +449,21 @@ pub fn op_acc_check(ctx: Ctx, a: u8) {
     let e = w(|w| w.accs[aslot(ctx, a)].take());
     let Some(e) = e else { return };
     w(|w| w.inflight_acc.push((e.uid, e.addr)));
-    let now = **e.g;
+    let now = guarded("deref(projection guard)", || **e.g);
     w(|w| {
-        w.inflight_acc.pop();
+        let key = (e.uid, e.addr);
+        if let Some(p) = w.inflight_acc.iter().position(|x| *x == key) {
+            w.inflight_acc.remove(p);
+        }
+    });
+    let Some(now) = now else {
+        // the projection panicked: the guard itself is intact, it is simply dropped
+        rt::op_begin(interp::OP_GUARD_DROP);
+        let _ = guarded("drop(projection guard)", move || drop(e));
+        rt::op_end();
+        return;
+    };
+    w(|w| {
         bump(w, "acc_checks");
         if total_writes(w) > e.writes_at_load {
             bump(w, "acc_guard_outlived_store");
@@ -390,7 +486,8 @@ pub fn op_acc_check(ctx: Ctx, a: u8) {
 pub fn op_acc_drop(ctx: Ctx, a: u8) {
     let e = w(|w| w.accs[aslot(ctx, a)].take());
     if let Some(e) = e {
-        let now = **e.g;
+        // (a panicking projection says nothing about the guard; it is then simply dropped)
+        let now = guarded("deref(projection guard)", || **e.g).unwrap_or(e.val);
         if now != e.val && !rt::is_aborting() {
             rt::fail(
                 "access",
